@@ -191,7 +191,8 @@ class ModelGen:
         # explicit compound ids of varied case so that, in id order, sub-propositions interleave with the
         # lower-case leaves (generated ids "VAR..." and upper-case ids always sort before them)
         self.cnt += 1
-        stem = self.rng.choice(["N", "N", "b", "k", "zz", "Q", "e"])
+        # (now and then an explicit id that merely LOOKS generated: it starts with "VAR")
+        stem = self.rng.choice(["N", "N", "b", "k", "zz", "Q", "e", "N", "b", "k", "zz", "Q", "e", "VAR_", "VARIANT"])
         return f"{self.prefix}{stem}{self.cnt}" if self.rng.random() < self.explicit else None
     def finish(self, r):
         """optionally pre-fix an explicitly named compound by constant own bounds"""
@@ -360,6 +361,16 @@ def form(b, rng):
             + ([np.int8] if -128 <= v < 128 else []) + ([np.uint8] if 0 <= v < 256 else [])
         return types[int(r * 1000) % len(types)](v)
     return tuple(b) if r < 0.8 else puan.Bounds(b[0], b[1])
+
+def typed_env(env):
+    """the same assignment with about half of the values as the narrowest signed numpy integer type that holds them
+    (which keys: decided by the data, so that a replay passes the same objects)"""
+    def narrow(v):
+        for t, lim in ((np.int8, 2 ** 7), (np.int16, 2 ** 15), (np.int32, 2 ** 31)):
+            if -lim <= v < lim:
+                return t(v)
+        return np.int64(v)
+    return {k: narrow(int(v)) if (len(str(k)) + abs(int(v))) % 2 == 0 else int(v) for k, v in env.items()}
 
 def forms(d, rng):
     r = {k: form(v, rng) for k, v in d.items()}
@@ -540,7 +551,8 @@ class ConfigGen:
         self.amount = {rng.choice(self.items): rng.choice([[0, 2], [0, 3], [1, 3]])} if rng.random() < 0.25 else {}
     def fresh(self, force=False):
         self.cnt += 1
-        return f"R{self.cnt}" if (force or self.rng.random() < self.explicit) else None
+        stem = "R" if self.rng.random() < 0.9 else "VARpk"          # an explicit id may start like a generated one
+        return f"{stem}{self.cnt}" if (force or self.rng.random() < self.explicit) else None
     def leaf(self, nm):
         if nm in self.amount:
             return {"k": "var", "id": nm, "b": list(self.amount[nm])}
